@@ -12,7 +12,7 @@ import (
 var (
 	u1 = eng.ID(1)
 	u2 = eng.ID(2)
-	u3 = eng.ID(3)
+	u3 = "abcdef00-0000-4000-8000-00000000000c" // hex letters: has an upper-case spelling that is a different string
 )
 
 func doc(id string, kv ...interface{}) m.Doc {
@@ -110,6 +110,13 @@ func init() {
 	})
 	register("C09", "model_checking", func(run *ev.Run, tier string) string {
 		runSS(run, tier, []string{"derived"}, both, "", own("derived"), nil)
+		fs, n := drv.BuilderImmutability()
+		run.Add("builder_calls", int64(n))
+		for _, f := range fs {
+			if f.Tag == "derived" {
+				run.Violation("builder|"+f.Msg[:20], f.Msg, map[string]interface{}{"engine": "builders", "finding": f.Msg})
+			}
+		}
 		return "in every reachable state of the 'consistency' alphabet (fixpoint), for 12 queries (criteria present/absent, sort, skip/limit incl. 0 and negative values, index present or not): Count = len(FindAll), Exists, FindFirst = FindAll[0], ForEach with a consumer stopping at every position j <= len+1 visits FindAll[:j] and is never called again, FindById non-nil iff live; the query object's getters are compared before/after every call"
 	})
 }
